@@ -114,7 +114,7 @@ def r2(ctx):
 
     def derives(u, ptr):
         """tree u reads the character vector at position `ptr`"""
-        return has(u, ('index', ANY, V(ptr))) or any(isinstance(x, tuple) and x and x[0] == 'var' and
+        return has(u, ('index', ANY, V(ptr))) or has(u, Call('::get', ANY, V(ptr))) or any(isinstance(x, tuple) and x and x[0] == 'var' and
                                                       any(has(core(dv), ('index', ANY, V(ptr))) for _, dv in local_defs(b, x[2])) for x in walk(u))
     for p in pushes:
         v = sym(b, p.args[1])
@@ -198,7 +198,8 @@ def r3(ctx):
         ok = v[0] == 'const' and v[2] == 32
         ctx.require(ok, b, 'literal-space', 'the only literal inserted is one space', 'literal inserted: %s' % show_in(b, v), t.span)
         atoms = [(core(tt), pol) for tt, pol, gg in atoms_at(b, t.bb)]
-        ins = any(pol is True and match(tt, ('bin', 'Eq', ANY, ('agg', 'adt', Pred(lambda n: n.endswith('Operation::Insert')), ()))) for tt, pol in atoms)
+        from rules.common import is_variant_at, variant_guards
+        ins = is_variant_at(b, t.bb, 'Insert')
         nws = any(pol is False and match(tt, Call(WS, Pred(lambda u: 'idx' not in show_in(b, u) or True))) for tt, pol in atoms)
         ctx.require(ins and nws, b, 'space-only-on-insert', 'a space is inserted only under op == Insert and !char.is_whitespace()',
                     'a space can be inserted under %s' % [('' if pol else '!') + show_in(b, tt)[:50] for tt, pol in atoms], t.span)
@@ -227,8 +228,8 @@ def r3(ctx):
     if loop is None:
         raise AnchorMissing('repair loop')
     push_blocks = [t.bb for t in cp]
-    del_edges = [(gg.block, gg.target) for gg in edge_guards(b) if gg.atom()[1] is True and
-                 match(core(gg.atom()[0]), ('bin', 'Eq', ANY, ('agg', 'adt', Pred(lambda n: n.endswith('Operation::Delete')), ())))]
+    from rules.common import variant_guards
+    del_edges = [(gg.block, gg.target) for gg, x_ in variant_guards(b, 'Delete')]
     ws_edges = [(gg.block, gg.target) for gg in edge_guards(b) if gg.atom()[1] is True and match(core(gg.atom()[0]), Call(WS, ANY))
                 and any(cfg.dominates(b, de[1], gg.block) for de in del_edges)]
     some = [w for w in b.succ[loop.header]]
